@@ -86,4 +86,26 @@ theorem pairsOf_ok (nup : Nat) (idx : List Nat) (h2 : 2 * nup ≤ idx.length) :
     refine ⟨(idx[j], idx[nup + j]) :: ps, ?_, by simp [hl]⟩
     simp [pairsOf, h1, h3, hps]
 
+/-- … and its entries are `(indices[j], indices[nup + j])` -/
+theorem pairsOf_get (nup : Nat) (idx : List Nat) (h2 : 2 * nup ≤ idx.length) :
+    ∀ todo j ps, j + todo ≤ nup → pairsOf nup idx todo j = .ok ps →
+      ∀ i, i < todo → ps[i]? = some (ind1 idx (j + i), ind2 nup idx (j + i)) := by
+  intro todo
+  induction todo with
+  | zero => intro j ps _ _ i hi; omega
+  | succ todo ih =>
+    intro j ps hj hps i hi
+    have h1 : j < idx.length := by omega
+    have h3 : nup + j < idx.length := by omega
+    obtain ⟨rest, hrest, _⟩ := pairsOf_ok nup idx h2 todo (j + 1) (by omega)
+    simp only [pairsOf, h1, h3, List.getElem?_eq_getElem, hrest] at hps
+    cases hps
+    cases i with
+    | zero => simp [ind1, ind2, h1, h3]
+    | succ i =>
+      have := ih (j + 1) rest (by omega) hrest i (by omega)
+      have he : j + (i + 1) = j + 1 + i := by omega
+      rw [he]
+      simpa using this
+
 end TapkeeVerif.Spe
